@@ -24,7 +24,6 @@ structure FoldEnv where
 inductive RuleRes where
   | noMatch
   | replace (out : List Instr)
-  | crash                 -- `PushNil(n - 1)` with `n = 0`: u16 underflow (debug build panics)
   | needFold              -- driver only: float fold outside the supplied table
   deriving Repr, DecidableEq
 
@@ -139,6 +138,10 @@ def replaceSecondArgImmFloat (i : Instr) (imm : String) : Instr :=
   | .binF op d r1 _ => .binFImm op d r1 imm
   | i => i
 
+/-- `Reg::offset_is_encodable`: a register operand holds a 15-bit signed offset; larger offsets are only
+    reachable with `LoadOffset`/`StoreOffset` (D90 repair: such offsets are not fused) -/
+def offsetIsEncodable (n : Int) : Bool := decide (-16384 ≤ n) && decide (n ≤ 16383)
+
 /-! ### the rule tables -/
 
 /-- `peephole1_helper` -/
@@ -146,34 +149,57 @@ def peephole1 : Instr → RuleRes
   | .pushNil 0 => .replace []
   | _ => .noMatch
 
-/-- the arms of `peephole2_helper` that need guards, in source order, after the literal patterns -/
+def loadOffsetOf : Instr → Option Int
+  | .loadOffset off => some off
+  | _ => none
+
+def storeOffsetOf : Instr → Option Int
+  | .storeOffset off => some off
+  | _ => none
+
+def pushIntOf : Instr → Option Int
+  | .pushInt n => some n
+  | _ => none
+
+def pushFloatOf : Instr → Option String
+  | .pushFloat f => some f
+  | _ => none
+
+/-- the arms of `peephole2_helper` that need guards, in source order, after the literal patterns:
+    `(LoadOffset(x), i2)` twice, `(i1, StoreOffset(n))`, `(PushInt, i2)`, `(PushFloat, i2)`.
+    A `LoadOffset` is neither `dest_is_top` nor a push of a constant, and a `StoreOffset` is not
+    `second_arg_is_top`, so an arm whose guard fails is not rescued by a later one. -/
 def peephole2Guarded (i1 i2 : Instr) : RuleRes :=
-  match i1 with
-  | .loadOffset off =>
-    if secondArgIsTop i2 then .replace [replaceSecondArg i2 (.off off)]
-    else if firstArgIsTopAndSecondArgIsOffsetOrImm i2 then .replace [replaceFirstArg i2 (.off off)]
-    else match i2 with
-      | .storeOffset _ => .noMatch      -- `LoadOffset` is not `dest_is_top`
-      | _ => .noMatch
-  | _ =>
-    match i2 with
-    | .storeOffset off =>
-      if destIsTop i1 then .replace [replaceDest i1 (.off off)] else .noMatch
-    | _ =>
-      match i1 with
-      | .pushInt n =>
+  match loadOffsetOf i1 with
+  | some off =>
+    -- (only if X fits a register operand)
+    if secondArgIsTop i2 && offsetIsEncodable off then .replace [replaceSecondArg i2 (.off off)]
+    else if firstArgIsTopAndSecondArgIsOffsetOrImm i2 && offsetIsEncodable off then
+      .replace [replaceFirstArg i2 (.off off)]
+    else .noMatch
+  | none =>
+    match storeOffsetOf i2 with
+    | some off =>
+      if destIsTop i1 && offsetIsEncodable off then .replace [replaceDest i1 (.off off)] else .noMatch
+    | none =>
+      match pushIntOf i1 with
+      | some n =>
         if secondArgIsTop i2 && canReplaceSecondArgWithImmInt i2 then .replace [replaceSecondArgImmInt i2 n]
         else .noMatch
-      | .pushFloat f =>
-        if secondArgIsTop i2 && canReplaceSecondArgWithImmFloat i2 then .replace [replaceSecondArgImmFloat i2 f]
-        else .noMatch
-      | _ => .noMatch
+      | none =>
+        match pushFloatOf i1 with
+        | some f =>
+          if secondArgIsTop i2 && canReplaceSecondArgWithImmFloat i2 then .replace [replaceSecondArgImmFloat i2 f]
+          else .noMatch
+        | none => .noMatch
 
 /-- `peephole2_helper`: first matching arm wins -/
 def peephole2 (i1 i2 : Instr) : RuleRes :=
   match i1, i2 with
   -- PUSH POP
-  | .pushNil n, .pop => if n = 0 then .crash else .replace [.pushNil (n - 1)]
+  -- (`PushNil(0)` pushes nothing, so a `Pop` after it pops an earlier value: guard `n >= 1`; no later arm
+  --  matches `PushNil, Pop`)
+  | .pushNil n, .pop => if n ≥ 1 then .replace [.pushNil (n - 1)] else .noMatch
   | .pushBool _, .pop => .replace []
   | .pushFloat _, .pop => .replace []
   | .pushInt _, .pop => .replace []
@@ -228,7 +254,6 @@ def peephole3 (env : FoldEnv) (i1 i2 i3 : Instr) : RuleRes :=
 inductive Hit where
   | miss
   | hit (out : List Instr) (consumed : Nat)
-  | crash
   | needFold
   deriving Repr, DecidableEq
 
@@ -240,7 +265,6 @@ def matchAt (env : FoldEnv) : List Line → Hit
       | _ => .noMatch
     match r3 with
     | .replace out => .hit out 3
-    | .crash => .crash
     | .needFold => .needFold
     | .noMatch =>
       let r2 : RuleRes := match rest with
@@ -248,13 +272,11 @@ def matchAt (env : FoldEnv) : List Line → Hit
         | _ => .noMatch
       match r2 with
       | .replace out => .hit out 2
-      | .crash => .crash
-      | .needFold => .needFold
+        | .needFold => .needFold
       | .noMatch =>
         match peephole1 i1 with
         | .replace out => .hit out 1
-        | .crash => .crash
-        | .needFold => .needFold
+            | .needFold => .needFold
         | .noMatch => .miss
   | _ => .miss
 
@@ -264,13 +286,11 @@ def annOf : List Line → Ann
 
 inductive PassRes where
   | ok (ls : List Line)
-  | crash
   | needFold
   deriving Repr, DecidableEq
 
 def PassRes.map (f : List Line → List Line) : PassRes → PassRes
   | .ok ls => .ok (f ls)
-  | .crash => .crash
   | .needFold => .needFold
 
 /-- `optimization_pass`; the fuel is the number of lines (every step consumes at least one) -/
@@ -281,7 +301,6 @@ def passLoop (env : FoldEnv) : Nat → List Line → PassRes
     match matchAt env (l :: rest) with
     | .hit out k =>
       (passLoop env fuel ((l :: rest).drop k)).map fun tl => out.map (fun i => .instr i (annOf (l :: rest))) ++ tl
-    | .crash => .crash
     | .needFold => .needFold
     | .miss => (passLoop env fuel rest).map fun tl => l :: tl
 
@@ -296,5 +315,39 @@ def optimizeLoop (env : FoldEnv) : Nat → List Line → PassRes
     | e => e
 
 def optimize (env : FoldEnv) (ls : List Line) : PassRes := optimizeLoop env (ls.length + 1) ls
+
+/-! ### `expand_immediates` (runs after `optimize`, before the location tables are built) -/
+
+/-- `Instr::without_imm`: the push of the immediate operand and the plain instruction taking its second
+    argument from the top of the stack -/
+def withoutImm : Instr → Option (Instr × Instr)
+  | .storeOffsetImm n imm => some (.pushInt imm, .storeOffset n)
+  | .binIImm op d r1 imm => some (.pushInt imm, .binI op d r1 .top)
+  | .arrayPushIntImm r1 imm => some (.pushInt imm, .arrayPush r1 .top)
+  | .binFImm op d r1 imm => some (.pushFloat imm, .binF op d r1 .top)
+  | _ => none
+
+/-- which constants got a constant-pool index that fits 16 bits (`gather_constants` numbers them in order
+    of first occurrence; the pool is an input here) -/
+structure Pool where
+  fitsInt : Int → Bool
+  fitsFloat : String → Bool
+
+def fits (pool : Pool) : Instr → Bool
+  | .pushInt imm => pool.fitsInt imm
+  | .pushFloat imm => pool.fitsFloat imm
+  | _ => false
+
+/-- an immediate-operand instruction whose constant has no 16-bit index is turned back into push + plain
+    instruction, both with the annotation of the original -/
+def expandImmediates (pool : Pool) : List Line → List Line
+  | [] => []
+  | .label l :: rest => .label l :: expandImmediates pool rest
+  | .instr i a :: rest =>
+    match withoutImm i with
+    | some (push, plain) =>
+      if fits pool push then .instr i a :: expandImmediates pool rest
+      else .instr push a :: .instr plain a :: expandImmediates pool rest
+    | none => .instr i a :: expandImmediates pool rest
 
 end Abra.Opt
